@@ -23,6 +23,12 @@ func (i *pItem) GetPriority() int { return i.p }
 type pBatch struct {
 	Launches []int   `json:"launches,omitempty"` // consumers that start selecting on WaitCh() (own goroutine each)
 	Lanes    [][]pOp `json:"lanes,omitempty"`
+	// Held: the queue's mutex is held through the hook priq.VerifHold while every lane (one call each) starts and is
+	// positively seen parked at the entry of its critical section; len(WaitCh()) is read (PEMid); if a token is
+	// readable the virtual consumer HeldTid receives it; the mutex is released and that consumer pops at once from
+	// the driver goroutine, racing with the parked calls
+	Held    bool `json:"held,omitempty"`
+	HeldTid int  `json:"heldtid,omitempty"`
 }
 
 type pSchedule struct {
@@ -124,58 +130,158 @@ func (r *priRun) exec(b pBatch) *pObs {
 				}
 			}
 		}
-		laneDone := make([]chan struct{}, len(b.Lanes))
-		for i := range b.Lanes {
-			laneDone[i] = make(chan struct{})
-			run := func(i int) {
-				defer close(laneDone[i])
-				for j := range b.Lanes[i] {
-					op := &b.Lanes[i][j]
-					switch op.Op {
-					case plPushLocked:
-						err := pq.Push(&pItem{p: int(op.P), v: op.V})
-						op.Out = pOut{K: 1, B: err == nil}
-					case plPopDirect:
-						some, v, _ := popOf(pq)
-						op.Out = pOut{K: 3, Some: some, V: v}
-					case plTryRecv:
-						c := consumers[op.T]
-						got := false
-						select {
-						case <-pq.WaitCh():
-							got = true
-						default:
-						}
-						if got {
-							c.holding = true
-						}
-						op.Out = pOut{K: 2, B: got}
-					case plPopHeld:
-						c := consumers[op.T]
-						if c == nil || !c.holding {
-							op.Out = pOut{K: 2, B: false} // (replay on a different outcome) not holding: nothing is called
-							continue
-						}
-						if c.virtual {
-							some, v, _ := popOf(pq)
-							c.some, c.v = some, v
-						} else {
-							close(c.gate)
-							<-c.done
-						}
-						c.holding = false
-						c.ret = true
-						op.Out = pOut{}
-					}
+		doOp := func(op *pOp) {
+			switch op.Op {
+			case plPushLocked:
+				err := pq.Push(&pItem{p: int(op.P), v: op.V})
+				op.Out = pOut{K: 1, B: err == nil}
+			case plPopDirect:
+				some, v, _ := popOf(pq)
+				op.Out = pOut{K: 3, Some: some, V: v}
+			case plTryRecv:
+				c := consumers[op.T]
+				got := false
+				select {
+				case <-pq.WaitCh():
+					got = true
+				default:
 				}
-			}
-			if len(b.Lanes) == 1 {
-				run(i)
-			} else {
-				go run(i)
+				if got {
+					c.holding = true
+				}
+				op.Out = pOut{K: 2, B: got}
+			case plPopHeld:
+				c := consumers[op.T]
+				if c == nil || !c.holding {
+					op.Out = pOut{K: 2, B: false} // (replay on a different outcome) not holding: nothing is called
+					return
+				}
+				if c.virtual {
+					some, v, _ := popOf(pq)
+					c.some, c.v = some, v
+				} else {
+					close(c.gate)
+					<-c.done
+				}
+				c.holding = false
+				c.ret = true
+				op.Out = pOut{}
 			}
 		}
-		laneStuck := false
+		laneDone := make([]chan struct{}, len(b.Lanes))
+		searchLanes := b.Lanes
+		heldStuck := false
+		if b.Held {
+			if b.HeldTid >= 0 && consumers[b.HeldTid] == nil {
+				consumers[b.HeldTid] = &pConsumer{t: b.HeldTid, virtual: true}
+			}
+			release := priq.VerifHold(pq)
+			gids := make([]int64, len(b.Lanes))
+			for i := range b.Lanes {
+				laneDone[i] = make(chan struct{})
+				gidCh := make(chan int64, 1)
+				go func(i int) {
+					gidCh <- curGoid()
+					defer close(laneDone[i])
+					for j := range b.Lanes[i] {
+						doOp(&b.Lanes[i][j])
+					}
+				}(i)
+				gids[i] = <-gidCh
+			}
+			// every call is parked at the mutex inside the queue's package (positive observation)
+			deadline := time.Now().Add(stuckBound)
+			for spins := 0; ; spins++ {
+				snap := snapshot()
+				all := true
+				for i := range b.Lanes {
+					if !parkedIn(snap, gids[i], "sync.Mutex.Lock", "github.com/pinealctx/neptune/queue/priq.(*PriQueue).") {
+						all = false
+					}
+				}
+				if all {
+					break
+				}
+				if time.Now().After(deadline) {
+					heldStuck = true
+					break
+				}
+				if spins < 200 {
+					runtime.Gosched()
+				} else {
+					time.Sleep(50 * time.Microsecond)
+				}
+			}
+			mid := len(pq.WaitCh()) == 1
+			// phase 1 of the resolution: nothing of the parked calls has happened
+			midEv := pEvent{isMid: true, mid: mid}
+			var driver []pOp
+			if mid && b.HeldTid >= 0 && !consumers[b.HeldTid].holding && !consumers[b.HeldTid].ret {
+				op := pOp{Op: plTryRecv, T: b.HeldTid}
+				doOp(&op)
+				driver = append(driver, op)
+			}
+			if !res.diverged {
+				var keep []pCand
+				for _, cd := range r.cands {
+					if cd.s.token != mid {
+						continue
+					}
+					st, path := cd.s, &pPath{parent: cd.path, ev: midEv}
+					ok := true
+					for _, op := range driver {
+						l := pLabel{Op: op.Op, T: op.T, W: -1}
+						ns, o, en := pStep(st, l)
+						if !en || !o.eq(op.Out) {
+							ok = false
+							break
+						}
+						st, path = ns, &pPath{parent: path, ev: pEvent{l: l, o: op.Out}}
+					}
+					if ok {
+						keep = append(keep, pCand{s: st, path: path})
+					}
+				}
+				if len(keep) == 0 {
+					res.diverged = true
+					r.fallback = &pPath{parent: r.cands[0].path, ev: midEv}
+					for _, op := range driver {
+						r.fallback = &pPath{parent: r.fallback, ev: pEvent{l: pLabel{Op: op.Op, T: op.T, W: -1}, o: op.Out}}
+					}
+				} else {
+					r.cands = keep
+				}
+			} else {
+				r.fallback = &pPath{parent: r.fallback, ev: midEv}
+				for _, op := range driver {
+					r.fallback = &pPath{parent: r.fallback, ev: pEvent{l: pLabel{Op: op.Op, T: op.T, W: -1}, o: op.Out}}
+				}
+			}
+			release()
+			// the consumer follows its signal with a Pop, at once and from this goroutine: it usually wins the mutex
+			// against the calls that have just been woken
+			if b.HeldTid >= 0 && consumers[b.HeldTid].holding {
+				op := pOp{Op: plPopHeld, T: b.HeldTid}
+				doOp(&op)
+				searchLanes = append(append([][]pOp{}, b.Lanes...), []pOp{op})
+			}
+		} else {
+			for i := range b.Lanes {
+				laneDone[i] = make(chan struct{})
+				run := func(i int) {
+					defer close(laneDone[i])
+					for j := range b.Lanes[i] {
+						doOp(&b.Lanes[i][j])
+					}
+				}
+				if len(b.Lanes) == 1 {
+					run(i)
+				} else {
+					go run(i)
+				}
+			}
+		}
+		laneStuck := heldStuck
 		for i := range laneDone {
 			select {
 			case <-laneDone[i]:
@@ -257,10 +363,10 @@ func (r *priRun) exec(b pBatch) *pObs {
 			}
 		}
 		if !res.diverged {
-			next := pSearch(r.cands, b.Lanes, b.Launches, ob)
+			next := pSearch(r.cands, searchLanes, b.Launches, ob)
 			if len(next) == 0 {
 				res.diverged = true
-				r.fallback = pFallbackPath(r.cands[0].path, b.Lanes, b.Launches, ob)
+				r.fallback = pFallbackPath(r.cands[0].path, searchLanes, b.Launches, ob)
 			} else {
 				r.cands = next
 				if len(r.cands) > res.maxCands {
@@ -268,7 +374,7 @@ func (r *priRun) exec(b pBatch) *pObs {
 				}
 			}
 		} else {
-			r.fallback = pFallbackPath(r.fallback, b.Lanes, b.Launches, ob)
+			r.fallback = pFallbackPath(r.fallback, searchLanes, b.Launches, ob)
 		}
 		if len(ob.Stuck) > 0 {
 			res.stuck = true
@@ -301,7 +407,9 @@ func (r *priRun) finish() *pRunResult {
 func priDesc(sc *pSchedule, r *pRunResult) map[string]interface{} {
 	var steps []string
 	for _, e := range r.events {
-		if e.isObs {
+		if e.isMid {
+			steps = append(steps, fmt.Sprintf("mutex held, calls parked at their critical section: token=%v", e.mid))
+		} else if e.isObs {
 			steps = append(steps, fmt.Sprintf("obs ret=%v parked=%v holding=%v stuck=%v token=%v len=%d", e.ob.Ret, e.ob.Parked, e.ob.Holding, e.ob.Stuck, e.ob.Token, e.ob.Len))
 		} else {
 			steps = append(steps, pCoqLabel(e.l)+" -> "+pCoqOut(e.o))
